@@ -288,8 +288,30 @@ class Exec(object):
 
             def go(v, s):
                 if isinstance(v, VPy) and isinstance(v.obj, type) and issubclass(v.obj, BaseException):
-                    # constructor arguments are message text: not evaluated (documented drop)
-                    return self.exc(v.obj, s)
+                    # The message text itself is not modelled, but the calls inside the constructor
+                    # arguments are executed for their exceptions (`'...%s' % text_(raw)` may raise
+                    # instead of the intended exception); string formatting is looked through.
+                    calls = []
+                    for a in list(n.exc.args) + [k.value for k in n.exc.keywords]:
+                        self.effect_calls(a, calls)
+                    outs2 = [('val', None, s)]
+                    for c in calls:
+                        nxt = []
+                        for k2, v2, s2 in outs2:
+                            if k2 != 'val':
+                                nxt.append((k2, v2, s2))
+                                continue
+                            try:
+                                s3 = s2.fork()
+                                nxt.extend(self.eval(c, s2, fr))
+                            except Unsupported as e:
+                                self.dropped.append((fr.relpath, n.lineno, 'call in exception message not modelled: %s' % str(e)[:60]))
+                                nxt.append(('val', None, s3))
+                        outs2 = nxt
+                    res = []
+                    for k2, v2, s2 in outs2:
+                        res.extend(self.exc(v.obj, s2) if k2 == 'val' else [(k2, v2, s2)])
+                    return res
                 raise Unsupported('raise of %r' % (v,))
             return self.bind(outs, go)
 
@@ -300,6 +322,29 @@ class Exec(object):
                 return self.exc(v.obj, s)
             raise Unsupported('raise of %r' % (v,))
         return self.bind(self.eval(n.exc, st, fr), go2)
+
+    def effect_calls(self, e, acc):
+        """the calls inside an exception-message expression that can have effects: formatting
+        ('fmt' % x, 'fmt'.format(..), str(), repr()) is looked through, everything else is kept whole"""
+        if isinstance(e, ast.BinOp) and isinstance(e.op, (ast.Mod, ast.Add)):
+            self.effect_calls(e.left, acc)
+            self.effect_calls(e.right, acc)
+        elif isinstance(e, (ast.Tuple, ast.List)):
+            for x in e.elts:
+                self.effect_calls(x, acc)
+        elif isinstance(e, ast.JoinedStr):
+            for x in e.values:
+                self.effect_calls(x, acc)
+        elif isinstance(e, ast.FormattedValue):
+            self.effect_calls(e.value, acc)
+        elif isinstance(e, ast.Call):
+            f = e.func
+            if (isinstance(f, ast.Attribute) and f.attr == 'format' and isinstance(f.value, ast.Constant)) or \
+                    (isinstance(f, ast.Name) and f.id in ('str', 'repr')):
+                for x in list(e.args) + [k.value for k in e.keywords]:
+                    self.effect_calls(x, acc)
+            else:
+                acc.append(e)
 
     def st_If(self, n, st, fr):
         def go(v, s):
